@@ -46,7 +46,9 @@ class DiscStorage:
 
     def persist(self, name):
         try:
-            file = self._lookup_path(name)
+            # a name with the full hash has no "*" which could match the
+            # "-new" of the file
+            file = self._lookup_path(external(name)._path)
         except HashError:
             return
         if file.stem.endswith("-new"):
